@@ -1,6 +1,241 @@
-From Coq Require Import ZArith List Lia Bool.
-From PV Require Import C15.Model C15.Spec.
+(* C15/Proofs.v -- part 1: list vocabulary and the shift loop. *)
+From Coq Require Import ZArith List Lia Bool Arith Permutation.
+From PV Require Import Base.NpList Base.NpSearch C15.Model C15.Spec.
 Import ListNotations.
 Open Scope Z_scope.
-Lemma tmp_example : ccg_steps [0;1] 1 1 <> None.
-Proof. vm_compute. discriminate. Qed.
+
+(* ================= generic list lemmas ================= *)
+Lemma nth_map_seq {X} (f : nat -> X) m a d : (a < m)%nat -> nth a (map f (seq 0 m)) d = f a.
+Proof.
+  intros Ha. rewrite (nth_indep _ d (f 0%nat)) by (rewrite map_length, seq_length; lia).
+  rewrite map_nth, seq_nth by lia. reflexivity.
+Qed.
+
+Lemma nth_firstn_lt {X} (l : list X) k a d : (a < k)%nat -> nth a (firstn k l) d = nth a l d.
+Proof.
+  revert l a; induction k as [|k IH]; intros l a Ha; [lia|].
+  destruct l as [|x r]; [destruct a; reflexivity|]. cbn [firstn]. destruct a as [|a]; cbn [nth]; [reflexivity|].
+  apply IH; lia.
+Qed.
+
+Lemma nth_skipn_add {X} (l : list X) s a d : nth a (skipn s l) d = nth (a + s) l d.
+Proof.
+  assert (Hnil : forall k, nth k (@nil X) d = d) by (intros [|k]; reflexivity).
+  revert l; induction s as [|s IH]; intros l; cbn [skipn].
+  - now rewrite Nat.add_0_r.
+  - destruct l as [|x r].
+    + now rewrite !Hnil.
+    + rewrite IH. replace (a + S s)%nat with (S (a + s)) by lia. reflexivity.
+Qed.
+
+Lemma firstn_as_map {X} (l : list X) k d : (k <= length l)%nat ->
+  firstn k l = map (fun a => nth a l d) (seq 0 k).
+Proof.
+  intros Hk. apply (nth_ext _ _ d d).
+  - rewrite firstn_length, map_length, seq_length. lia.
+  - intros a Ha. rewrite firstn_length in Ha. rewrite nth_firstn_lt by lia. now rewrite nth_map_seq by lia.
+Qed.
+
+Lemma skipn_as_map {X} (l : list X) s d :
+  skipn s l = map (fun a => nth (a + s) l d) (seq 0 (length l - s)).
+Proof.
+  apply (nth_ext _ _ d d).
+  - now rewrite skipn_length, map_length, seq_length.
+  - intros a Ha. rewrite skipn_length in Ha. rewrite nth_skipn_add. now rewrite nth_map_seq by lia.
+Qed.
+
+Lemma map2_map {X A B C} (f : A -> B -> C) (g : X -> A) (h : X -> B) l :
+  map2 f (map g l) (map h l) = map (fun x => f (g x) (h x)) l.
+Proof. induction l as [|x r IH]; cbn [map map2]; [reflexivity|]. now rewrite IH. Qed.
+
+Lemma select_map {X Y} (p : X -> bool) (g : X -> Y) l :
+  select (map p l) (map g l) = map g (filter p l).
+Proof.
+  induction l as [|x r IH]; cbn [map select filter]; [reflexivity|].
+  destruct (p x); cbn [map]; now rewrite IH.
+Qed.
+
+Lemma flat_map_nil {X Y} (f : X -> list Y) l : (forall x, In x l -> f x = []) -> flat_map f l = [].
+Proof.
+  induction l as [|x r IH]; intros H; cbn [flat_map]; [reflexivity|].
+  rewrite H by now left. rewrite IH; [reflexivity|]. intros y Hy; apply H; now right.
+Qed.
+
+Lemma filter_nil {X} (p : X -> bool) l : (forall x, In x l -> p x = false) -> filter p l = [].
+Proof.
+  induction l as [|x r IH]; intros H; cbn [filter]; [reflexivity|].
+  rewrite (H x) by now left. apply IH. intros y Hy; apply H; now right.
+Qed.
+
+Lemma flat_map_seq_cut {Y} (f : nat -> list Y) a k m :
+  (k <= m)%nat -> (forall s, (a + k <= s)%nat -> f s = []) ->
+  flat_map f (seq a m) = flat_map f (seq a k).
+Proof.
+  intros Hk Hnil. replace m with (k + (m - k))%nat by lia. rewrite seq_app, flat_map_app.
+  rewrite (flat_map_nil f (seq (a + k) (m - k))); [apply app_nil_r|].
+  intros s Hs. apply in_seq in Hs. apply Hnil. lia.
+Qed.
+
+Lemma existsb_id_false m (mask : list bool) :
+  existsb (fun b => b) (firstn m mask) = false ->
+  forall a, (a < m)%nat -> (a < length mask)%nat -> nth a mask false = false.
+Proof.
+  revert mask; induction m as [|m IH]; intros mask H a Ha Hl; [lia|].
+  destruct mask as [|b r]; [cbn in Hl; lia|]. cbn [firstn existsb] in H.
+  apply orb_false_iff in H as [Hb Hr]. destruct a as [|a]; cbn [nth]; [exact Hb|].
+  apply IH; [exact Hr|lia|cbn in Hl; lia].
+Qed.
+
+Lemma existsb_id_true m (mask : list bool) :
+  existsb (fun b => b) (firstn m mask) = true -> (0 < m)%nat.
+Proof. destruct m; cbn; [discriminate|lia]. Qed.
+
+Lemma nth_repeat_true m a : (a < m)%nat -> nth a (repeat true m) false = true.
+Proof. revert a; induction m as [|m IH]; intros a Ha; [lia|]. destruct a; cbn; [reflexivity|]. apply IH; lia. Qed.
+
+(* ================= the shift loop ================= *)
+Section Loop.
+Variable t : list Z.
+Variable bs W : Z.
+Let n := length t.
+
+(* the increments at shift s: every a with a + s < n whose lag bin is within the half window *)
+Definition events_at (s : nat) : list event :=
+  map (fun a => mkev a (a + s) (D t bs a (a + s)))
+      (filter (fun a => D t bs a (a + s) <=? W) (seq 0 (n - s))).
+
+(* what iteration s of the while loop computes *)
+Definition step_at (s : nat) : step :=
+  mkstep s (map (fun a => D t bs a (a + s) <=? W) (seq 0 (n - s)))
+           (map (fun a => D t bs a (a + s)) (seq 0 (n - s))).
+
+Lemma step_events_at s : step_events (step_at s) = events_at s.
+Proof.
+  unfold step_events, step_at, events_at. cbn [st_mask st_diff st_shift].
+  rewrite map_length, seq_length.
+  rewrite <- (map_id (seq 0 (n - s))) at 2. rewrite map2_map.
+  apply select_map.
+Qed.
+
+Hypothesis Hbs : 0 < bs.
+Hypothesis HW : 0 <= W.
+Hypothesis Hsorted : forall i j, (i <= j < n)%nat -> nth i t 0 <= nth j t 0.
+
+Lemma D_mono a b c : (a <= b <= c)%nat -> (c < n)%nat -> D t bs a b <= D t bs a c.
+Proof.
+  intros H Hc. unfold D. apply Z.div_le_mono; [lia|].
+  pose proof (Hsorted b c ltac:(lia)). lia.
+Qed.
+
+Lemma D_refl a : D t bs a a = 0.
+Proof. unfold D. rewrite Z.sub_diag. apply Z.div_0_l. lia. Qed.
+
+Lemma D_nonneg a b : (a <= b < n)%nat -> 0 <= D t bs a b.
+Proof. intros H. rewrite <- (D_refl a). apply D_mono; lia. Qed.
+
+(* invariant at the start of iteration s: mask[a] says whether the lag at shift s-1 was inside *)
+Definition Inv (s : nat) (mask : list bool) : Prop :=
+  length mask = n /\
+  forall a, (a + (s - 1) < n)%nat -> nth a mask false = (D t bs a (a + (s - 1)) <=? W).
+
+Lemma diff_shifted_as_map s :
+  diff_shifted t s = map (fun a => nth (a + s) t 0 - nth a t 0) (seq 0 (n - s)).
+Proof.
+  unfold diff_shifted. fold n. rewrite (skipn_as_map t s 0). fold n.
+  rewrite (firstn_as_map t (n - s) 0) by (unfold n; lia). apply map2_map.
+Qed.
+
+Lemma shift_step_snd s mask : (1 <= s)%nat -> Inv s mask -> snd (shift_step t bs W s mask) = step_at s.
+Proof.
+  intros Hs [Hlen Hinv]. unfold shift_step, step_at. cbn [snd]. fold n.
+  rewrite diff_shifted_as_map, map_map.
+  change (map (fun x => (nth (x + s) t 0 - nth x t 0) / bs) (seq 0 (n - s)))
+    with (map (fun a => D t bs a (a + s)) (seq 0 (n - s))).
+  f_equal.
+  rewrite (firstn_as_map mask (n - s) false) by lia. rewrite map2_map.
+  apply map_ext_in. intros a Ha. apply in_seq in Ha.
+  rewrite Hinv by lia.
+  pose proof (D_mono a (a + (s - 1)) (a + s) ltac:(lia) ltac:(lia)).
+  destruct (W <? D t bs a (a + s)) eqn:E1; destruct (D t bs a (a + s) <=? W) eqn:E2;
+    destruct (D t bs a (a + (s - 1)) <=? W) eqn:E3; try reflexivity; lia.
+Qed.
+
+Lemma shift_step_inv s mask : (1 <= s)%nat -> Inv s mask -> Inv (S s) (fst (shift_step t bs W s mask)).
+Proof.
+  intros Hs HI. pose proof (shift_step_snd s mask Hs HI) as Hsnd. pose proof HI as [Hlen Hinv].
+  unfold shift_step in *. cbn [fst snd] in *. fold n in Hsnd |- *.
+  unfold step_at in Hsnd. injection Hsnd as Hm _. rewrite Hm. split.
+  - rewrite app_length, map_length, seq_length, skipn_length. lia.
+  - intros a Ha. replace (S s - 1)%nat with s in * by lia.
+    rewrite app_nth1 by (rewrite map_length, seq_length; lia).
+    now rewrite nth_map_seq by lia.
+Qed.
+
+Lemma stopped_no_events s mask : (1 <= s)%nat -> Inv s mask ->
+  existsb (fun b => b) (firstn (n - s) mask) = false ->
+  forall s', (s <= s')%nat -> events_at s' = [].
+Proof.
+  intros Hs [Hlen Hinv] E s' Hs'. unfold events_at.
+  rewrite filter_nil; [reflexivity|].
+  intros a Ha. apply in_seq in Ha.
+  pose proof (existsb_id_false _ _ E a ltac:(lia) ltac:(lia)) as Hm.
+  rewrite Hinv in Hm by lia.
+  pose proof (D_mono a (a + (s - 1)) (a + s') ltac:(lia) ltac:(lia)). lia.
+Qed.
+
+Lemma loop_spec : forall fuel s mask, (1 <= s)%nat -> Inv s mask -> (n < fuel + s)%nat ->
+  exists k, loop t bs W fuel s mask = Some (map step_at (seq s k)) /\ (s + k <= Nat.max s n)%nat /\
+            forall s', (s + k <= s')%nat -> events_at s' = [].
+Proof.
+  induction fuel as [|f IH]; intros s mask Hs HI Hf; cbn [loop]; fold n;
+    destruct (existsb (fun b => b) (firstn (n - s) mask)) eqn:E.
+  - apply existsb_id_true in E. lia.
+  - exists 0%nat. split; [reflexivity|]. split; [lia|]. intros s' Hs'. apply (stopped_no_events s mask Hs HI E). lia.
+  - apply existsb_id_true in E.
+    pose proof (shift_step_snd s mask Hs HI) as Hsnd. pose proof (shift_step_inv s mask Hs HI) as HI'.
+    destruct (IH (S s) (fst (shift_step t bs W s mask)) ltac:(lia) HI' ltac:(lia)) as (k & -> & Hk & Hnil).
+    exists (S k). rewrite Hsnd. split; [reflexivity|]. split; [lia|].
+    intros s' Hs'. apply Hnil. lia.
+  - exists 0%nat. split; [reflexivity|]. split; [lia|]. intros s' Hs'. apply (stopped_no_events s mask Hs HI E). lia.
+Qed.
+
+Definition all_events : list event := flat_map events_at (seq 1 (n - 1)).
+
+Lemma ccg_steps_spec :
+  exists k, ccg_steps t bs W = Some (map step_at (seq 1 k)) /\ (k <= n - 1)%nat /\
+            flat_map events_at (seq 1 k) = all_events.
+Proof.
+  unfold ccg_steps. fold n.
+  destruct (loop_spec n 1 (repeat true n) ltac:(lia)) as (k & Hk & Hle & Hnil).
+  - split; [apply repeat_length|]. intros a Ha. rewrite nth_repeat_true by lia.
+    replace (a + (1 - 1))%nat with a by lia. rewrite D_refl. symmetry. apply Z.leb_le. exact HW.
+  - lia.
+  - exists k. split; [exact Hk|].
+    assert (k <= n - 1)%nat as Hkn.
+    { destruct k as [|k]; [lia|]. lia. }
+    split; [exact Hkn|]. unfold all_events. symmetry. apply flat_map_seq_cut; [exact Hkn|exact Hnil].
+Qed.
+
+(* the increments, in the order the code performs them, are exactly the events of all shifts *)
+Lemma loop_events :
+  exists steps, ccg_steps t bs W = Some steps /\ concat (map step_events steps) = all_events.
+Proof.
+  destruct ccg_steps_spec as (k & Hk & _ & Hall). exists (map step_at (seq 1 k)). split; [exact Hk|].
+  rewrite map_map, <- Hall, flat_map_concat_map. f_equal. apply map_ext. intros s. apply step_events_at.
+Qed.
+
+(* membership: exactly the pairs a < b < n whose lag bin is within the half window *)
+Lemma events_mem a b d :
+  In (mkev a b d) all_events <-> (a < b < n)%nat /\ d = D t bs a b /\ d <= W.
+Proof.
+  unfold all_events. rewrite in_flat_map. split.
+  - intros (s & Hs & Hin). apply in_seq in Hs. unfold events_at in Hin.
+    apply in_map_iff in Hin as (a' & Heq & Hin). apply filter_In in Hin as [Ha' E].
+    apply in_seq in Ha'. injection Heq as -> <- <-. repeat split; lia.
+  - intros (Hab & -> & HdW). exists (b - a)%nat. split; [apply in_seq; lia|].
+    unfold events_at. apply in_map_iff. exists a. split.
+    + replace (a + (b - a))%nat with b by lia. reflexivity.
+    + apply filter_In. split; [apply in_seq; lia|].
+      replace (a + (b - a))%nat with b by lia. lia.
+Qed.
+End Loop.
